@@ -94,7 +94,30 @@ def pairing(rep, O, ix, R):
         if isinstance(n, ast.Assign) and len(n.targets) == 1 and isinstance(n.targets[0], ast.Attribute) and u(n.targets[0].value) == "self":
             stores.setdefault(n.targets[0].attr, []).append(n)
     if "func" not in stores or "regrefs" not in stores:
-        raise Inconclusive("RegRefTransform.__init__ no longer assigns self.func / self.regrefs")
+        # lazy form: func / regrefs are (cached) properties of the class; each computes its value on first access
+        pf, pr = ix.funcs.get(PAIR_CLASS + ".func"), ix.funcs.get(PAIR_CLASS + ".regrefs")
+        if pf is None or pr is None:
+            raise Inconclusive("RegRefTransform: func / regrefs are neither assigned in __init__ nor properties of the class")
+        from ..py import norm as _norm
+        ef, er = _norm.as_expression((getattr(pf, "orig", None) or pf.node).body), _norm.as_expression((getattr(pr, "orig", None) or pr.node).body)
+        if ef is None or er is None:
+            raise Inconclusive("RegRefTransform.func / .regrefs: property bodies are not single expressions")
+        o1 = ef.args[0] if isinstance(ef, ast.Call) and u(ef.func).endswith("lambdify") and len(ef.args) >= 2 else None
+        rv = er
+        outer_sorted = False
+        while isinstance(rv, ast.Call) and u(rv.func) in ("list", "tuple", "sorted") and rv.args:
+            outer_sorted = outer_sorted or u(rv.func) == "sorted"
+            rv = rv.args[0]
+        o2 = rv.generators[0].iter if isinstance(rv, (ast.ListComp, ast.GeneratorExp)) and len(rv.generators) == 1 and not rv.generators[0].ifs else None
+        if o1 is None or o2 is None:
+            raise Inconclusive("RegRefTransform.func / .regrefs: property expressions not recognised")
+        t1, t2 = " ".join(u(o1).split()), " ".join(u(o2).split())
+        shared = isinstance(o1, ast.Attribute) and u(o1.value) == "self" and t1 == t2 and not outer_sorted       # one stored sequence read by both
+        same_sort = t1 == t2 and t1.startswith("sorted(") and "free_symbols" in t1 and not outer_sorted   # the same deterministic order computed twice
+        rep.check(shared or same_sort, R, ix.site(pf), "func and regrefs (computed lazily) order the registers by one and the same sequence",
+                  "func takes its parameters in the order of `%s`, regrefs lists the registers in the order of `%s`%s: the value measured for one register is passed for another whenever the two "
+                  "orders differ (q10 sorts before q2 as text, after it as a number)" % (t1[:60], t2[:60], " and sorts them again" if outer_sorted else ""), key=q + "|lazy pair")
+        return
     fn, rg = stores["func"][-1], stores["regrefs"][-1]
     ok_shape = len(stores["func"]) == 1 and len(stores["regrefs"]) == 1
     # func = <x>.lambdify(B, expr)
